@@ -14,12 +14,16 @@ use sudachi::dic::dictionary::JapaneseDictionary;
 use sudachi::dic::lexicon::trie::Trie;
 use sudachi::dic::lexicon::word_id_table::WordIdTable;
 use sudachi::dic::subset::InfoSubset;
+use sudachi::analysis::stateful_tokenizer::StatefulTokenizer;
 use sudachi::prelude::*;
+use sudachi::analysis::Mode;
 
 const HEADER_SIZE: usize = 8 + 8 + 256;
 
 thread_local! { static NUL_VARIANT: std::cell::RefCell<&'static str> = std::cell::RefCell::new("follow"); }
-fn nul_token() -> String { NUL_VARIANT.with(|v| format!("nul={}", v.borrow())) }
+thread_local! { static ML_VARIANT: std::cell::RefCell<&'static str> = std::cell::RefCell::new("append"); }
+fn nul_token() -> String { NUL_VARIANT.with(|v| ML_VARIANT.with(|m| format!("nul={} ml={}", v.borrow(), m.borrow()))) }
+fn ml_replaces() -> bool { ML_VARIANT.with(|m| *m.borrow() == "replace") }
 
 /// characters keys are made of: 1, 2, 3, 4 byte scalars; several share leading bytes
 const KEY_CHARS: &[char] = &[
@@ -28,6 +32,9 @@ const KEY_CHARS: &[char] = &[
 ];
 /// additional characters of texts
 const TEXT_EXTRA: &[char] = &['\u{0}', ' ', 'z', 'う', '都', '\u{301}', '\n', ',', '"'];
+
+/// characters the default input-text plugin rewrites (case, width, compatibility forms, 1 -> several)
+const REWRITTEN: &[char] = &['Ａ', 'B', 'ｶ', 'ﾞ', '㍿', 'É', 'ǆ', '①', 'ｱ'];
 
 pub struct Parsed {
     pub lex_off: usize,
@@ -285,6 +292,21 @@ fn directed(idx: usize) -> Option<WorldSrc> {
             exact: vec!["\u{0}a".into(), "b\u{0}c".into(), "東京\u{0}".into(), "\u{0}x".into(), "\u{0}".into()],
             tag: "nul",
         },
+        13 => WorldSrc { dicts: vec![vec![n("a"), n("ab")]], texts: vec![t("a")], exact: vec![], tag: "no-indexed-row" },
+        16 => WorldSrc { dicts: vec![vec![r("a"), r("b\u{0}c")]], texts: vec![t("a")], exact: vec![], tag: "nul-surface" },
+        17 => WorldSrc { dicts: vec![vec![r("a"), n("")]], texts: vec![t("a")], exact: vec![], tag: "empty-surface" },
+        18 => WorldSrc { dicts: vec![vec![r("a")], vec![r("b")], vec![n("c"), n("a")]], texts: vec![t("a")], exact: vec![], tag: "user-no-indexed-row" },
+        19 | 20 => {
+            // queries at and above the length limit of the input buffer (49 149 bytes), keys around them
+            let long_key = format!("{}a", "あ".repeat(10922));   // 32 767 bytes: the longest surface the builder accepts
+            WorldSrc {
+                dicts: vec![vec![r("a"), r("aa"), r(&long_key), n(&long_key)], vec![r(&long_key), r("a")]],
+                texts: vec![t("aaa")],
+                exact: vec![long_key.clone(), "a".repeat(49149), "a".repeat(49150), "a".into(), format!("{}a", long_key), "aa".into(), "".into(), "a".into()],
+                tag: "length-limit",
+            }
+        }
+        21 => WorldSrc { dicts: vec![vec![r("a"), n(&format!("{}aa", "あ".repeat(10922)))]], texts: vec![t("a")], exact: vec![], tag: "surface-32768" },
         _ => return None,
     })
 }
@@ -336,7 +358,8 @@ fn random_world(rng: &mut Rng, thorough: bool) -> WorldSrc {
     let ntexts = rng.range(2, 6);
     let texts = gen_texts(rng, &dicts, &pool, ntexts);
     let nexact = rng.range(1, 6);
-    let exact = gen_exact(rng, &dicts, &pool, nexact);
+    let mut exact = gen_exact(rng, &dicts, &pool, nexact);
+    if rng.chance(1, 60) { let at = rng.below(exact.len() + 1); exact.insert(at, rng.pick(&pool).to_string().repeat(49150 / rng.pick(&pool).len_utf8().max(1) + 1)); }
     WorldSrc { dicts, texts, exact, tag: "random" }
 }
 
@@ -401,6 +424,12 @@ fn world_case(run: &mut Run, idx: usize, cfg: &str, matrix: &[u8], w: &WorldSrc)
         }
         Err((_, e)) => {
             run.bump("outcome:load-error");
+            if w.dicts.len() <= 15 {
+                // dictionaries the builder produced do not load (or the system dictionary is unusable as a base)
+                run.case(idx, "world", &format!("n={} texts=61 exact=", w.dicts.len()), "err:load", false);
+                run.fail(idx, "c04:load", &format!("compiled dictionaries do not load: {}", e.chars().take(300).collect::<String>()));
+                return;
+            }
             // too many dictionaries is the only load error the generator provokes
             let mut payload = format!("n={}", w.dicts.len());
             let pos = default_pos();
@@ -415,9 +444,6 @@ fn world_case(run: &mut Run, idx: usize, cfg: &str, matrix: &[u8], w: &WorldSrc)
             payload.push_str(" texts=61 exact=");
             let ans = if e.contains("TooManyDictionaries") || e.contains("too many") { "err:set".to_string() } else { format!("err:load:{}", e.chars().take(60).collect::<String>()) };
             run.case(idx, "world", &payload, &ans, false);
-            if w.dicts.len() <= 15 {
-                run.fail(idx, "c04:load", &format!("compiled dictionaries do not load: {}", e));
-            }
             return;
         }
     };
@@ -457,7 +483,7 @@ fn world_case(run: &mut Run, idx: usize, cfg: &str, matrix: &[u8], w: &WorldSrc)
     let prefix_rel = all.iter().any(|a| all.iter().any(|b| b.len() > a.len() && b.as_bytes().starts_with(a.as_bytes())));
     if prefix_rel { run.bump("prefix-related-keys"); }
 
-    payload.push_str(&format!(" texts={} exact={}", join(w.texts.iter().map(|t| hex(t)), ";"), join(w.exact.iter().map(|q| hex(q.as_bytes())), ";")));
+    payload.push_str(&format!(" texts={} exact=@", join(w.texts.iter().map(|t| hex(t)), ";")));
 
     // ---- the real implementation ----
     let lex = built.dic.lexicon();
@@ -499,21 +525,84 @@ fn world_case(run: &mut Run, idx: usize, cfg: &str, matrix: &[u8], w: &WorldSrc)
     }
     run.bump_by("lookups", nlook);
     run.bump_by("lookup-hits", nhits);
+    // ---- exact-surface lookup: MorphemeList::lookup, on a NEW list per query (even cases) or on ONE
+    // StatefulTokenizer + ONE MorphemeList that analysed / looked up other texts before (odd cases) ----
+    let recycled = idx % 2 == 1;
+    run.bump(if recycled { "objects:recycled" } else { "objects:new" });
+    let mut hrng = Rng::for_case(run.opts.seed ^ 0x5eed_c04, idx);
+    let mut tok = StatefulTokenizer::new(&built.dic, Mode::C);
+    let mut shared = MorphemeList::empty(&built.dic);
+    let mut prev_wids: Option<Vec<u32>> = None; // word ids the shared list holds if the last call on it was a lookup of this sequence
     let mut exact = vec![];
-    for q in &w.exact {
-        let r = catch(|| -> Result<Vec<(u32, usize, String)>, String> {
-            let mut ml = MorphemeList::empty(&built.dic);
+    let mut modes = vec![];
+    for (qi, q) in w.exact.iter().enumerate() {
+        // history: 1..4 other texts through the same objects (longer, shorter, empty, rejected)
+        let keep = recycled && qi > 0 && prev_wids.is_some() && hrng.chance(1, 4);
+        if recycled && !keep {
+            let steps = hrng.range(1, 4);
+            for _ in 0..steps {
+                let kind = hrng.below(9);
+                let text: String = match kind {
+                    0 => String::new(),
+                    1 => "a".repeat(49150),                                  // rejected: InputTooLong
+                    2 => { let d = hrng.pick(&w.dicts); hrng.pick(d).surface.chars().take(1).collect() }
+                    3 | 4 => { let mut t = String::new(); for _ in 0..hrng.range(2, 9) { let d = hrng.pick(&w.dicts); t.push_str(&hrng.pick(d).surface); let pool2 = if hrng.chance(1, 2) { TEXT_EXTRA } else { REWRITTEN }; t.push(*hrng.pick(pool2)); } t }
+                    5 => format!("{}{}", q, hrng.pick(KEY_CHARS)),
+                    6 => { let n = q.chars().count(); q.chars().take(n.saturating_sub(1)).collect() }
+                    _ => match std::str::from_utf8(&hrng.pick(&w.texts[..])[..]) { Ok(t) => t.to_string(), Err(_) => "東京".to_string() },
+                };
+                if hrng.chance(1, 3) {
+                    // another exact lookup through the same list
+                    run.bump("history:lookup");
+                    let _ = catch(|| { shared.clear(); let _ = shared.lookup(&text, InfoSubset::all()); });
+                } else {
+                    run.bump(&format!("history:analysis:{}", if text.is_empty() { "empty" } else if text.len() > 49149 { "rejected" } else if text.len() > q.len() { "longer" } else if text.len() < q.len() { "shorter" } else { "same-length" }));
+                    let r = catch(|| -> Result<Option<String>, String> {
+                        tok.reset().push_str(&text);
+                        tok.do_tokenize().map_err(|e| err_class(&e))?;
+                        let bad = lattice_check(&w.dicts, &tok, &text);
+                        shared.collect_results(&mut tok).map_err(|e| err_class(&e))?;
+                        Ok(bad)
+                    });
+                    match r {
+                        Ok(Ok(Some(bad))) => fails.push(("c04:lattice".into(), bad)),
+                        Ok(Ok(None)) => { run.bump("lattice-checked"); }
+                        Ok(Err(_)) => { run.bump("history:analysis-error"); }
+                        Err(p) => fails.push(("c04:history-panic".into(), format!("analysis of {:?} on the reused tokenizer panicked: {}", text.chars().take(40).collect::<String>(), p))),
+                    }
+                }
+                prev_wids = None;
+            }
+        }
+        modes.push(if keep { 'k' } else { 'c' });
+        if keep { run.bump("exact:keep"); }
+        let r = catch(|| -> Result<(usize, Vec<u32>, Vec<(usize, usize, usize, usize, String)>), String> {
+            let mut fresh;
+            let ml = if recycled { &mut shared } else { fresh = MorphemeList::empty(&built.dic); &mut fresh };
+            if !keep { ml.clear(); }
             let n = ml.lookup(q, InfoSubset::all()).map_err(|e| err_class(&e))?;
-            let v: Vec<(u32, usize, String)> = ml.iter().map(|m| (m.word_id().as_raw(), m.end(), m.surface().to_string())).collect();
-            if v.len() != n { return Err(format!("count {} != {}", n, v.len())); }
-            Ok(v)
+            let all: Vec<u32> = ml.iter().map(|m| m.word_id().as_raw()).collect();
+            let skip = all.len().saturating_sub(n);
+            let last = ml.iter().skip(skip).map(|m| (m.begin_c(), m.end_c(), m.begin(), m.end(), m.surface().to_string())).collect();
+            Ok((n, all, last))
         });
+        let qb = q.as_bytes();
         match r {
-            Err(p) => { exact.push("P".to_string()); fails.push(("c04:exact-panic".into(), format!("MorphemeList::lookup({:?}) panicked: {}", q, p))); }
-            Ok(Err(e)) => { exact.push(format!("E{}", e)); fails.push(("c04:exact-error".into(), format!("MorphemeList::lookup({:?}) failed: {}", q, e))); }
-            Ok(Ok(v)) => {
-                exact.push(show_pairs(&v.iter().map(|x| (x.0, x.1)).collect::<Vec<_>>()));
-                let mut got: Vec<u32> = v.iter().map(|x| x.0).collect();
+            Err(p) => { exact.push("P".to_string()); prev_wids = None; fails.push(("c04:exact-panic".into(), format!("MorphemeList::lookup({:?}) panicked: {}", q, p))); }
+            Ok(Err(e)) => {
+                exact.push(format!("E{}", e));
+                if !keep || ml_replaces() { prev_wids = Some(vec![]); }
+                if !(e == "TooLong" && qb.len() > 49149) {
+                    fails.push(("c04:exact-error".into(), format!("MorphemeList::lookup({:?}) failed: {}", q.chars().take(60).collect::<String>(), e)));
+                } else { run.bump("exact:too-long"); }
+            }
+            Ok(Ok((n, all, last))) => {
+                exact.push(format!("{}/{}/{}", n, join(all.iter(), ","), join(last.iter().map(|x| format!("{}:{}:{}:{}", x.0, x.1, x.2, x.3)), ",")));
+                let before: Vec<u32> = if keep && !ml_replaces() { prev_wids.clone().unwrap_or_default() } else { vec![] };
+                if all.len() != before.len() + n || all[..before.len().min(all.len())] != before[..] {
+                    fails.push(("c04:exact-list".into(), format!("MorphemeList::lookup({:?}) returned {} but the list went from {:?} to {:?} (it has to append exactly the reported number of morphemes)", q, n, before, all)));
+                }
+                let mut got: Vec<u32> = all[all.len().saturating_sub(n)..].to_vec();
                 got.sort();
                 let mut want = vec![];
                 for (d, rows) in w.dicts.iter().enumerate() {
@@ -522,28 +611,62 @@ fn world_case(run: &mut Run, idx: usize, cfg: &str, matrix: &[u8], w: &WorldSrc)
                     }
                 }
                 want.sort();
-                let qb = q.as_bytes();
                 let nul_only = want.iter().all(|x| got.contains(x)) && {
                     let mut g2 = got.clone(); g2.dedup(); g2.len() == got.len()
                 } && got.iter().filter(|x| !want.contains(x)).all(|x| nul_explained(&w.dicts, qb, 0, &(*x, qb.len())));
                 if got != want && nul_only {
                     fails.push(("c04:exact:nul-followed".into(), format!("exact lookup of {:?} ({}): returned {:?}, rows with that surface {:?}", q, hex(qb), got, want)));
                 } else if got != want {
-                    fails.push(("c04:exact".into(), format!("exact lookup of {:?} ({}): returned {:?}, rows with that surface {:?}", q, hex(q.as_bytes()), got, want)));
-                } else if v.iter().any(|x| x.1 != q.len() || x.2 != *q) {
-                    fails.push(("c04:exact-range".into(), format!("exact lookup of {:?}: a morpheme does not span the query: {:?}", q, v)));
+                    fails.push(("c04:exact".into(), format!("exact lookup of {:?} ({}){}: returned {:?}, rows with that surface {:?}", q, hex(q.as_bytes()), if recycled { " on a reused list" } else { "" }, got, want)));
+                } else if last.iter().any(|x| x.0 != 0 || x.1 != q.chars().count() || x.2 != 0 || x.3 != q.len() || x.4 != *q) {
+                    fails.push(("c04:exact-range".into(), format!("exact lookup of {:?}{}: a morpheme does not span the query: {:?}", q, if recycled { " on a reused list" } else { "" }, last)));
                 }
+                prev_wids = Some(all);
             }
         }
     }
     let ones = join(w.dicts.iter().map(|_| 1), ",");
-    let ans = format!("ok sizes={} tbl={} chk={} look={} exact={}", sizes.join(","), ones, ones, look.join("|"), exact.join("|"));
+    let ans = format!("ok sizes={} tbl={} chk={} wr={} look={} exact={}", sizes.join(","), ones, ones, ones, look.join("|"), exact.join("|"));
+    let payload = payload.replace(" exact=@", &format!(" exact={}", join(w.exact.iter().zip(modes.iter()).map(|(q, m)| format!("{}:{}", m, hex(q.as_bytes()))), ";")));
     run.case(idx, "world", &payload, &ans, prefix_rel && multi);
     let mut seen = std::collections::HashSet::new();
     for (k, w) in fails.into_iter() {
         if k.ends_with("nul-followed") { run.bump(&format!("finding:{}", k)); }
         if seen.insert(k.clone()) { run.fail(idx, &k, &w); }
     }
+}
+
+/// The look-ups as the analysis makes them (`LatticeBuilder::build_lattice`): for every character
+/// boundary that is reachable in the lattice the dictionary nodes that begin there must be the naive
+/// scan of the source rows at that byte offset, minus the entries the builder drops itself (end not
+/// at a possible word beginning, `InputBuffer::can_bow`, taken from the real buffer).  Called after
+/// `do_tokenize` and before `collect_results` (which swaps the buffer away).  The scan runs over the
+/// text as the input-text plugins left it (`InputBuffer::current`).
+fn lattice_check(dicts: &[Vec<Row>], tok: &StatefulTokenizer<&JapaneseDictionary>, text: &str) -> Option<String> {
+    let input = tok.verif_input();
+    // the look-ups run on the text as the input-text plugins left it
+    let cur = input.current().to_string();
+    let bytes = cur.as_bytes();
+    let mut offs: Vec<usize> = cur.char_indices().map(|(i, _)| i).collect();
+    offs.push(bytes.len());
+    let nchars = offs.len() - 1;
+    let rows = tok.verif_lattice().verif_rows();
+    for b in 0..nchars {
+        if b > 0 && rows.get(b).map_or(true, |r| r.is_empty()) { continue; }
+        let mut got: Vec<(u32, usize)> = vec![];
+        for e in b + 1..=nchars {
+            if let Some(r) = rows.get(e) {
+                for n in r { if n.0 == b && (n.5 >> 28) != 15 { got.push((n.5, offs[e])); } }
+            }
+        }
+        got.sort();
+        let want: Vec<(u32, usize)> = naive(dicts, bytes, offs[b]).into_iter().filter(|x| x.1 >= bytes.len() || input.can_bow(x.1)).collect();
+        if got != want {
+            return Some(format!("text {:?} (analysed as {:?}): dictionary nodes of the lattice that begin at character {} (byte {}) are [{}], naive scan of the source rows gives [{}]",
+                text.chars().take(60).collect::<String>(), cur.chars().take(60).collect::<String>(), b, offs[b], show_pairs(&got), show_pairs(&want)));
+        }
+    }
+    None
 }
 
 /// An entry that is explained by the NUL defect (byte 0 is followed as a transition of the double
@@ -633,7 +756,14 @@ fn trie_case(run: &mut Run, idx: usize, rng: &mut Rng, matrix: &[u8]) {
         Ok(b) => b,
         Err(_) => return,
     };
-    let p = parse_dictionary(&bin).expect("layout");
+    let p = match parse_dictionary(&bin) {
+        Some(p) => p,
+        None => {
+            run.case(idx, "trie", "units= text=", "err:layout", false);
+            run.fail(idx, "c04:layout", "compiled dictionary does not follow the documented layout");
+            return;
+        }
+    };
     let mut units = p.units.clone();
     // keep the line short: the builder allocates whole blocks, the tail is unused
     let used = units.iter().rposition(|&u| u != 0).map_or(1, |i| i + 1);
@@ -717,11 +847,15 @@ pub fn run(run: &mut Run) {
     run.rule = "one case = one world: system + 0..14 user dictionaries compiled by the real DictBuilder from generated rows \
 (2-6 characters of 1-4 bytes per world, prefix families, proper prefixes, up to 127 homographs, non-indexed rows, keys shared \
 between layers, tables beyond 255 / 65 535 bytes) and loaded by the real JapaneseDictionary; LexiconSet::lookup at EVERY byte \
-offset 0..=len+1 of 2-6 texts (key concatenations, NUL, one byte-damaged text) + MorphemeList::lookup of 1-6 queries; every 8th \
+offset 0..=len+1 of 2-6 texts (key concatenations, NUL, one byte-damaged text) + MorphemeList::lookup of 1-6 queries - in even cases on a \
+new list per query, in odd cases on ONE StatefulTokenizer + ONE MorphemeList that analysed / looked up 1-4 other texts before each query \
+(longer, shorter, empty, rejected as too long; every 4th world with the default input-text plugin rewriting those texts), sometimes without \
+clear() between two look-ups; each of those analyses compares the dictionary nodes of the lattice with the naive scan; every 8th \
 pair of cases instead runs Trie::common_prefix_iterator on (damaged) raw arrays and WordIdTable::entries on arbitrary buffers; \
 non-trivial = prefix-related keys and some lookup with >= 2 results; distinct by line".into();
     let wd = Workdir::new(&format!("{}-c04", run.prop));
     let cfg = config_json(&wd, &[], &[simple_oov_json(0, 0, 1000)], &[], &[]);
+    let cfg_rw = config_json(&wd, &[r#"{"class":"com.worksap.nlp.sudachi.DefaultInputTextPlugin","rewriteDef":"rewrite.def"}"#.to_string()], &[simple_oov_json(0, 0, 1000)], &[], &[]);
     let matrix = b"1 1\n0 0 0\n".to_vec();
     // what the NUL defect means for the tokenizer (information only, recorded in the evidence)
     {
@@ -735,6 +869,25 @@ non-trivial = prefix-related keys and some lookup with >= 2 results; distinct by
                     }
                 }
                 run.extra.insert("nul_tokenizer_demo".into(), serde_json::json!(demo));
+                // which variant of MorphemeList::lookup is linked: does a second look-up on the same list append
+                // ("append", the code as it stands) or replace ("replace", the candidate repair)?  And what the
+                // appended state means: the first batch of morphemes now points into the second query's text.
+                let probe = catch(|| {
+                    let mut ml = MorphemeList::empty(&dic);
+                    let _ = ml.lookup("東京", InfoSubset::all());
+                    let _ = ml.lookup("a", InfoSubset::all());
+                    let n = ml.len();
+                    let first = catch(|| ml.get(0).surface().to_string());
+                    (n, first)
+                });
+                if let Ok((n, first)) = probe {
+                    let variant = if n == 1 { "replace" } else { "append" };
+                    ML_VARIANT.with(|v| *v.borrow_mut() = variant);
+                    run.extra.insert("ml_variant".into(), serde_json::json!(variant));
+                    run.extra.insert("ml_append_demo".into(), serde_json::json!(format!(
+                        "lookup(\"東京\"); lookup(\"a\") on one list without clear(): {} morphemes; surface of morpheme 0: {}",
+                        n, match first { Ok(s) => format!("{:?}", s), Err(p) => format!("PANIC {}", p.chars().take(120).collect::<String>()) })));
+                }
             }
         }
     }
@@ -748,6 +901,10 @@ non-trivial = prefix-related keys and some lookup with >= 2 results; distinct by
             Some(w) => w,
             None => random_world(&mut rng, run.opts.thorough),
         };
-        world_case(run, idx, &cfg, &matrix, &w);
+        // every 4th world loads with the default input-text plugin: the analyses that precede the exact look-ups on the
+        // reused objects then rewrite their text (edit buffers in use); look-ups themselves never run plugins
+        let with_rw = idx % 4 == 3;
+        if with_rw { run.bump("config:input-text-plugin"); }
+        world_case(run, idx, if with_rw { &cfg_rw } else { &cfg }, &matrix, &w);
     }
 }
